@@ -129,7 +129,7 @@ def success(p):
 def run(chk, tier):
     P = Prog("default")
     chk.configs.add("default")
-    for r in (r_mustread, r_verify_sets, r_ambiguous_pick, r_offset_used, r_who_writes, r_setter_boxes, r_setter_fields, r_resolve_year, r_resolve_year_map, r_offset_optional, r_verify_halves, r_absint):
+    for r in (r_mustread, r_verify_sets, r_ambiguous_pick, r_offset_used, r_who_writes, r_setter_boxes, r_setter_fields, r_resolve_year, r_resolve_year_map, r_offset_optional, r_verify_halves, r_resolution_map, r_absint):
         chk.guarded(r, P, tier)
     chk.assume("that resolution succeeds exactly on the documented sufficient combinations, and the error classification (not enough / impossible / out of range), are not decided")
     return {
@@ -512,3 +512,158 @@ def r_verify_halves(chk, P, tier):
         if i not in seen:
             raise AnchorLost("to_naive_date: no verify closure compares %s with a computed half of the year" % fs[i])
         chk.expect(seen[i] == {op}, fs[i], "the supplied %s is compared with a value computed by %s by 100 (expected %s only)" % (fs[i], sorted(seen[i]), "the quotient" if op == "Div" else "the remainder"), loc=P.loc(F + "to_naive_date"))
+
+
+def r_resolution_map(chk, P, tier):
+    """Field resolution as a value map. For dates on both sides of every month / year / ISO-year / week-number boundary in one year per year class (and around the
+    two-digit-year pivot, year 0 and a five-digit year) all 14 date fields are derived from the date with the calendar oracle; to_naive_date is folded (no execution)
+    for every documented sufficient combination in every form of the year group, alone, with each further field added consistently (must give the date), with each
+    further field added with a different value (must fail with impossible / out of range: a success would contradict a supplied field), and with one element removed
+    (not enough). to_naive_time likewise over the hour / minute / second / nanosecond presence patterns including second 60."""
+    import calendar_oracle as cal
+    from finmap import Folder, show, Unknown, _opt
+    from rules import table_value
+    from props.c01 import flags_of
+    chk.rule("MAP.resolution", "to_naive_date over all sufficient field combinations x year forms x one consistent / contradicting / missing extra field, and to_naive_time over its presence patterns, resolve exactly as documented", floor=8000)
+    fo = Folder(P, max_depth=16)
+    names = fields(P)
+    tbl = [flags_of(c) for c in table_value(P, "naive::internals::YEAR_TO_FLAGS")]
+    WD = P.adts["weekday::Weekday"]["variants"]
+
+    def parsed(kw):
+        fs = []
+        for n in names:
+            v = kw.get(n)
+            if n == "weekday":
+                fs.append(_opt(v is not None, ("agg", "adt", "weekday::Weekday", WD[v]["name"], (), v) if v is not None else None))
+            elif n.startswith("_"):
+                fs.append(("agg", "tuple", None, None, (), None))
+            else:
+                fs.append(_opt(v is not None, ("const", v) if v is not None else None))
+        return ("ref", ("agg", "adt", PA, "Parsed", tuple(fs), 0))
+
+    def outcome(v):
+        if isinstance(v, tuple) and v[0] == "Result::Ok":
+            return ("Ok",) + tuple(v[1][1:])
+        if isinstance(v, tuple) and v[0] == "Result::Err":
+            return ("Err", _err_kind(v))
+        return ("?", v)
+
+    def fold(fn, kw):
+        try:
+            return outcome(show(fo.call(F + fn, [parsed(kw)])))
+        except Unknown as e:
+            return ("unknown", str(e))
+
+    def derive(y, m, d):
+        o = cal.ordinal(y, m, d)
+        wd = cal.weekday(y, m, d)                   # 0 = Monday
+        iy, iw, _ = cal.iso_week(y, m, d)
+        f = {"year": y, "month": m, "day": d, "ordinal": o, "weekday": wd, "quarter": (m - 1) // 3 + 1,
+             "week_from_sun": (o + 6 - (wd + 1) % 7) // 7, "week_from_mon": (o + 6 - wd) // 7, "isoyear": iy, "isoweek": iw}
+        if y >= 0:
+            f["year_div_100"], f["year_mod_100"] = y // 100, y % 100
+        if iy >= 0:
+            f["isoyear_div_100"], f["isoyear_mod_100"] = iy // 100, iy % 100
+        return f
+    reps = {}
+    for y in range(2000, 2400):
+        reps.setdefault(tbl[y % 400], y)
+    quick = tier != "thorough"
+    years = sorted(reps.values())
+    dates = []
+    for y in (years[::3] if quick else years):
+        dates += [(y, 1, 1), (y, 1, 4), (y, 2, 28), (y, 3, 1), (y, 12, 28), (y, 12, 31)] + ([(y, 2, 29)] if cal.leap(y) else [])
+    dates += [(1969, 12, 31), (1970, 1, 1), (2069, 12, 31), (2070, 1, 1), (0, 1, 1), (0, 12, 31), (-1, 12, 31), (12345, 6, 7), (1999, 12, 31), (2000, 1, 1)]
+    bad = {}
+    n_ok = [0]
+
+    def expect(cls, a, got, ok):
+        if ok:
+            n_ok[0] += 1
+        else:
+            bad.setdefault(cls, (a, got))
+    date_fields = [n for n in names if n in ("year", "year_div_100", "year_mod_100", "isoyear", "isoyear_div_100", "isoyear_mod_100", "quarter", "month", "week_from_sun", "week_from_mon",
+                                             "isoweek", "weekday", "ordinal", "day")]
+    for (y, m, d) in dates:
+        f = derive(y, m, d)
+        yof = (y << 13) | (f["ordinal"] << 4) | tbl[y % 400]
+        want = ("Ok", yof)
+        year_forms = [("full", ["year"])]
+        if y >= 0:
+            year_forms += [("century + two-digit", ["year_div_100", "year_mod_100"]), ("full + two-digit", ["year", "year_mod_100"])]
+            if 1970 <= y <= 2069:
+                year_forms.append(("two-digit alone", ["year_mod_100"]))
+        iso_forms = [("full", ["isoyear"])]
+        if f["isoyear"] >= 0:
+            iso_forms += [("century + two-digit", ["isoyear_div_100", "isoyear_mod_100"])]
+            if 1970 <= f["isoyear"] <= 2069:
+                iso_forms.append(("two-digit alone", ["isoyear_mod_100"]))
+        combos = []
+        for yn, yf in year_forms:
+            combos += [("year(%s), month, day" % yn, yf + ["month", "day"]), ("year(%s), ordinal" % yn, yf + ["ordinal"]),
+                       ("year(%s), week_from_sun, weekday" % yn, yf + ["week_from_sun", "weekday"]), ("year(%s), week_from_mon, weekday" % yn, yf + ["week_from_mon", "weekday"])]
+        for yn, yf in iso_forms:
+            combos.append(("isoyear(%s), isoweek, weekday" % yn, yf + ["isoweek", "weekday"]))
+        for cname, cs in combos:
+            base = {k: f[k] for k in cs}
+            got = fold("to_naive_date", base)
+            expect("sufficient: " + cname, ((y, m, d), sorted(base)), got, got == want)
+            for extra in date_fields:
+                if extra in base or extra not in f:
+                    continue
+                kw = dict(base)
+                kw[extra] = f[extra]
+                got = fold("to_naive_date", kw)
+                if extra.endswith("_div_100"):
+                    grp = extra[:-8]
+                    if grp not in base and grp + "_mod_100" not in base:
+                        # a century without the rest of its year group is indeterminate (documented: not enough), whatever its value
+                        expect("lone century %s" % extra, ((y, m, d), cname), got, got == ("Err", "NotEnough"))
+                        continue
+                    if grp not in base:
+                        # century + two-digit year define the year together: another century is another year, not a contradiction
+                        expect("sufficient + consistent %s" % extra, ((y, m, d), cname), got, got == want)
+                        continue
+                expect("sufficient + consistent %s" % extra, ((y, m, d), cname), got, got == want)
+                kw[extra] = (f[extra] + 1) % 7 if extra == "weekday" else f[extra] + 1
+                got = fold("to_naive_date", kw)
+                expect("sufficient + contradicting %s" % extra, ((y, m, d), cname, kw[extra]), got, got[0] == "Err" and got[1] in ("Impossible", "OutOfRange"))
+            if quick and (y, m, d) not in dates[:7] + dates[-10:]:
+                continue
+            if "(full)" not in cname:
+                continue
+            for drop in cs:
+                kw = {k: v for k, v in base.items() if k != drop}
+                got = fold("to_naive_date", kw)
+                expect("one element removed", ((y, m, d), cname, drop), got, got == ("Err", "NotEnough"))
+    # times
+    for h in (0, 1, 11, 12, 13, 23):
+        for mi in (0, 59):
+            for sec in (None, 0, 59, 60):
+                for ns in (None, 0, 1, 999999999):
+                    kw = {"hour_div_12": h // 12, "hour_mod_12": h % 12, "minute": mi}
+                    if sec is not None:
+                        kw["second"] = sec
+                    if ns is not None:
+                        kw["nanosecond"] = ns
+                    if ns is not None and sec is None:
+                        w = ("Err", "NotEnough")
+                    else:
+                        s2 = 59 if sec == 60 else (sec or 0)
+                        w = ("Ok", h * 3600 + mi * 60 + s2, (ns or 0) + (10**9 if sec == 60 else 0))
+                    got = fold("to_naive_time", kw)
+                    expect("to_naive_time", kw, got, got == w)
+                    for drop in ("hour_div_12", "hour_mod_12", "minute"):
+                        kw2 = {k: v for k, v in kw.items() if k != drop}
+                        got = fold("to_naive_time", kw2)
+                        expect("to_naive_time without " + drop, kw2, got, got == ("Err", "NotEnough"))
+    for kw in ({"hour_div_12": 2, "hour_mod_12": 0, "minute": 0}, {"hour_div_12": 0, "hour_mod_12": 12, "minute": 0}, {"hour_div_12": 0, "hour_mod_12": 0, "minute": 60},
+               {"hour_div_12": 0, "hour_mod_12": 0, "minute": 0, "second": 61}, {"hour_div_12": 0, "hour_mod_12": 0, "minute": 0, "second": 0, "nanosecond": 10**9},
+               {"hour_div_12": -1, "hour_mod_12": 0, "minute": 0}):
+        got = fold("to_naive_time", kw)
+        expect("to_naive_time out of range", kw, got, got == ("Err", "OutOfRange"))
+    for _ in range(n_ok[0]):
+        chk.ok("value")
+    for cls, (a, got) in sorted(bad.items()):
+        chk.bad(cls, "%s: fields derived from %s resolve to %s" % (cls, a, got), loc=P.loc(F + ("to_naive_time" if cls.startswith("to_naive_time") else "to_naive_date")))
